@@ -56,6 +56,7 @@ func hasTag(tags []string, p string) bool {
 // modelText: what the engine assumes where it models a library function or a language feature natively
 var modelText = map[string]string{
 	"strconv.ParseInt":   "strconv.ParseInt(s, 10, k) succeeds exactly when s is a numeral (an optional sign, then ASCII digits: uf_isnum) whose value fits k bits, and returns uf_numval(s); other bases unconstrained",
+	"strconv.ParseUint":  "strconv.ParseUint(s, 10, 64) succeeds exactly when s is a numeral without sign whose value is below 2^64, and returns it",
 	"strings.ToLower":    "strings.ToLower on a text of ASCII bytes only keeps the length and maps A-Z to a-z; nothing is assumed for other texts",
 	"strings.IndexByte":  "strings.IndexByte returns the first position holding the byte, or -1 when no position does",
 	"strings.HasPrefix":  "strings.HasPrefix with a constant prefix: length and bytes; with a variable prefix an uninterpreted function of the two strings",
